@@ -18,7 +18,7 @@ SPEC = {
         {"name": "route", "pkg": "./route", "search_cases": 20000, "quick_cases": 2500, "only": ["route_key_spec"]},
         # a (re)started instance must receive the cluster's notification log at join time: the application registers its
         # states before it joins (C19's engine: real memberlist; the order in app/app.go is read from the source)
-        {"name": "mesh", "pkg": "./mesh", "search_cases": 4, "timeout_quick": 400, "only": ["full_state_superset"]},
+        {"name": "mesh", "pkg": "./mesh", "search_cases": 4, "timeout_quick": 400, "only": ["full_state_superset", "healthy_no_duplicate"]},
         # the replicated notification log is what keeps later-positioned instances silent: an older entry must never replace a newer one (C10's engine)
         {"name": "nflog", "pkg": "./nflog", "search_cases": 8000, "quick_cases": 1200, "only": ["merge_monotone", "fold_merge_perm"]},
     ],
